@@ -186,7 +186,7 @@ class RefDrive402:
 
     def __init__(self, node_id, start=SOD, k=0, extras=(0,), qs="stay", cw0=0, supported=0,
                  display=0, kmode=0, layout="none", tpdo_tt=255, rpdo_tt=255, level=False,
-                 timer_only=False, evt=0):
+                 timer_only=False, evt=0, cw_latency=0.0):
         self.node_id = node_id
         self.level = level
         self.timer_only = timer_only    # TPDOs only on the event timer (clock ticks), not on change
@@ -202,6 +202,7 @@ class RefDrive402:
         self.tpdo_tt = tpdo_tt
         self.rpdo_tt = rpdo_tt
         self.evt = evt                  # event timer / reception deadline (sub 5) of every PDO, ms
+        self.cw_latency = cw_latency    # seconds the drive takes to act on (and confirm) a controlword by SDO
         self.lock = threading.RLock()
         self.hub = None
         self.port = None
@@ -417,6 +418,9 @@ class RefDrive402:
                 if len(data) != 2:
                     self.bad_access.append(("write-length", index, sub, bytes(data)))
                     return 0x06070010
+                if self.cw_latency:
+                    import time
+                    time.sleep(self.cw_latency)     # a slow but conformant drive
                 self.on_controlword(struct.unpack("<H", data)[0], "sdo")
                 self._emit_event_tpdos()
                 return None
